@@ -738,21 +738,10 @@ def eq_pairs_for(arr, rng):
     return [dict(p, kind="eqpair", A=A) for p in out]
 
 
-REGRESSION_PAIRS = [
-    # witnesses of the three defects fixed by 98a8b3d (they must pass now)
-    {"label": "displacement:rtol-sliver", "A": [[[0.8929199675434736, 0.5], [0.25, 0.25]], [[0, 1]], [[0, 0]]],
-     "B": [[[0.9, 0.5], [0.25, 0.25]], [[0, 1]], [[0, 0]]], "expect": "differ", "note": "x displaced by 0.00708003 > 1/(100 sqrt 2) = 0.00707107; allclose's rtol*|other| made A==B True, B==A False"},
-    {"label": "displacement:rtol-slack", "A": [[[0.9 - 0.007075567811865475, 0.5], [0.25, 0.25]], [[0, 1]], [[0, 0]]],
-     "B": [[[0.9, 0.5], [0.25, 0.25]], [[0, 1]], [[0, 0]]], "expect": "differ", "note": "x displaced by 0.0070756 > 0.0070711"},
-    {"label": "displacement:diagonal", "A": [[[0.5, 0.5], [0.25, 0.25]], [[0, 1]], [[0, 0]]],
-     "B": [[[0.5 + 0.0065, 0.5 + 0.0065], [0.25, 0.25]], [[0, 1]], [[0, 0]]], "expect": "differ", "note": "displaced by 0.0092 (1.3 x tolerance) along the diagonal"},
-    {"label": "sizes", "A": [[[0.5, 0.5], [0.25, 0.25]], [[0, 1]], [[0, 0]]],
-     "B": [[[0.5, 0.5], [0.25, 0.25], [0.75, 0.75]], [[0, 1], [1, 2]], [[0, 0], [0, 0]]], "expect": "differ", "note": "different sizes"},
-    {"label": "sizes", "A": [[[0.5, 0.5]], [[0, 0]], [[1, 0]]],
-     "B": [[[0.5, 0.5], [0.25, 0.25], [0.75, 0.75]], [[0, 1], [1, 2]], [[0, 0], [0, 0]]], "expect": "differ", "note": "1 vertex against 3 (broadcastable shapes)"},
-    {"label": "sizes", "A": [[[0.5, 0.5], [0.25, 0.25], [0.75, 0.75]], [[0, 1]], [[0, 0]]],
-     "B": [[[0.5, 0.5], [0.25, 0.25], [0.75, 0.75]], [[0, 1], [1, 2]], [[0, 0], [0, 0]]], "expect": "differ", "note": "same vertices, 1 edge against 2"},
-]
+def corpus_payloads():
+    """minimised past failures (corpus/C09/*.json: the witnesses of the defects fixed by 8051f8a, 1d3446a, 98a8b3d, d5da286), run first"""
+    import glob
+    return [json.load(open(f))["case"] for f in sorted(glob.glob(os.path.join(VERIF, "corpus", "C09", "*.json")))]
 
 
 # ------------------------------------------------------------------------------------------ raw K checks
@@ -1010,7 +999,12 @@ def run(ctx):
                 "eq pairs: perturbed copies (edge, crossing, displacement 0.5 / 1-2^-16 / 1+2^-16 / 1.00001 / 1.01 / 3 x tolerance in a random direction, float32 rounding). "
                 "float32-cast: special values, ties, subnormals, near-overflow, random")
     tier = ctx.tier
-    check_eq_pairs(ctx, [dict(p, kind="eqpair") for p in REGRESSION_PAIRS])
+    corpus = corpus_payloads()
+    check_eq_pairs(ctx, [p for p in corpus if p.get("kind") == "eqpair"])
+    for p in corpus:
+        if p.get("kind") == "lattice":
+            check_lattice(ctx, p["case"], p.get("index", 0), None, p.get("level", "full"))
+    ctx.res.extra["corpus_cases"] = len(corpus)
     check_dtype_thresholds(ctx)
     rng = np.random.default_rng([ctx.seed, 32])
     check_r32(ctx, r32_inputs(rng, 400 if tier == "quick" else 5000), "mixed")
